@@ -377,6 +377,65 @@ pub fn main(tier: Tier) -> ! {
     }
     run.family("rfc8259 texts", json!({"tokens": toks.len(), "valid_texts": accepted_total}));
     run.add(c_total);
+
+    // ---------------------------------------------------------- insignificant whitespace at every structural position
+    // RFC 8259: ws is allowed before and after every structural character and around the value
+    let bases: Vec<Vec<&str>> = vec![
+        vec!["{", "\"a\"", ":", "1", "}"],
+        vec!["{", "\"a\"", ":", "[", "1", ",", "2", "]", ",", "\"b\"", ":", "{", "\"c\"", ":", "null", "}", "}"],
+        vec!["[", "]"],
+        vec!["{", "}"],
+        vec!["[", "[", "]", ",", "{", "}", ",", "\"s\"", ",", "-1.5e3", ",", "true", "]"],
+        vec!["{", "\"k\"", ":", "\"v\"", ",", "\"\"", ":", "false", "}"],
+        vec!["[", "{", "\"a\"", ":", "[", "{", "\"b\"", ":", "0", "}", "]", "}", "]"],
+        vec!["\"x\""],
+        vec!["12"],
+    ];
+    let wss = [" ", "\t", "\n", "\r", " \t\r\n "];
+    let mut c = Counts::default();
+    for base in &bases {
+        let plain: String = base.concat();
+        let want = independent(&plain).expect("base text is valid JSON");
+        let mut variants: Vec<String> = vec![];
+        for ws in wss {
+            // one gap at a time (gap 0 = before the first token, gap n = after the last), then all gaps
+            for g in 0..=base.len() {
+                let mut s = String::new();
+                for (i, t) in base.iter().enumerate() {
+                    if i == g {
+                        s.push_str(ws);
+                    }
+                    s.push_str(t);
+                }
+                if g == base.len() {
+                    s.push_str(ws);
+                }
+                variants.push(s);
+            }
+            variants.push(format!("{ws}{}{ws}", base.join(ws)));
+        }
+        for text in variants {
+            let key = format!("whitespace: {text:?}");
+            c.case(h64(&key), true, h64(&plain));
+            c.transitions += 1;
+            // the independent parser must agree that the text is valid and denotes the same value
+            if independent(&text).as_ref() != Some(&want) {
+                continue;
+            }
+            let out = jq::run_vals(&pf, jq::to_val(&rv::s(&text)), vec![], 3);
+            let ok = matches!(&out, Ok(o) if o.len() == 1 && matches!(&o[0], Ok(v) if agrees(&jq::to_rval(v), &want)));
+            if !ok {
+                let got = match &out {
+                    Ok(o) => format!("{:?}", o.iter().map(|x| x.as_ref().map(|v| v.to_string()).map_err(|e| jq::ev_json(e).to_string())).collect::<Vec<_>>()),
+                    Err(p) => format!("panic: {p}"),
+                };
+                run.violation(&key, json!({"text": text, "independent_parser": want.to_string(), "jaq": got}));
+            }
+        }
+    }
+    run.family("insignificant whitespace", json!({"base_texts": bases.len(), "whitespace_kinds": wss.len(), "texts": c.evaluations}));
+    run.bound_done(format!("{} base texts x {} kinds of whitespace x (every single gap, all gaps)", bases.len(), wss.len()));
+    run.add(c);
     run.sample(json!({"string_value": rv::json_string(&RVal::Str(vec![0x7f, b'"', 0xff], false)), "byte_string_value": rv::json_string(&RVal::Str(vec![0x7f, b'"', 0xff], true))}));
     run.sample(json!({"tree": rv::json_string(&trees[trees.len() / 2])}));
     run.sample(json!({"rfc8259_tokens": toks}));
